@@ -7,7 +7,10 @@ package main
 
 import (
 	"fmt"
+	"os"
 )
+
+var brStatOn = os.Getenv("GOSYM_BRSTAT") != ""
 
 type pcEntry struct {
 	term *Term // asserted Bool term
@@ -51,6 +54,7 @@ type nondetRec struct {
 type knownClass struct {
 	id   string
 	cond *Term
+	once bool // applies to the next assertion only
 }
 
 type Explorer struct {
@@ -73,6 +77,7 @@ type Explorer struct {
 	UnwindFail     int
 	Unsupported    map[string]int
 	Unknown        int
+	Mismatch       int
 	Failures       []Failure
 	KnownHits      map[string]int
 	Reached        map[string]int
@@ -85,6 +90,7 @@ type Explorer struct {
 	curHarness     string
 	curParams      map[string]int
 	Out            map[string]int
+	groupSize      int
 	sampleTape     []TapeEntry
 	sampleScore    int
 	samplePC       string
@@ -92,7 +98,7 @@ type Explorer struct {
 
 func NewExplorer(s *Solver) *Explorer {
 	return &Explorer{solver: s, Unsupported: map[string]int{}, KnownHits: map[string]int{}, Reached: map[string]int{},
-		maxChoices: 600, maxFailures: 3, openKnown: map[string]bool{}, assertPaths: map[string]int{}, shareWrites: map[string]int{}, Out: map[string]int{}}
+		maxChoices: 600, maxFailures: 3, groupSize: envInt("GOSYM_GROUP", 1), openKnown: map[string]bool{}, assertPaths: map[string]int{}, shareWrites: map[string]int{}, Out: map[string]int{}}
 }
 
 func (ex *Explorer) pcTerms(n int) []*Term {
@@ -128,7 +134,18 @@ func (ex *Explorer) Branch(cond *Term) bool {
 	if !dir {
 		t = Not(cond)
 	}
-	ex.pc = append(ex.pc, pcEntry{term: t, kind: 1, cond: cond, taken: dir, flipOK: true})
+	if brStatOn && curIns != nil {
+		brStat[curIns.Parent().Name()+": "+curIns.String()]++
+	}
+	// the same condition already decided on this path: no alternative
+	flip := true
+	for k := len(ex.pc) - 1; k >= 0; k-- {
+		if ex.pc[k].term == t {
+			flip = false
+			break
+		}
+	}
+	ex.pc = append(ex.pc, pcEntry{term: t, kind: 1, cond: cond, taken: dir, flipOK: flip})
 	ex.pos++
 	return dir
 }
@@ -169,7 +186,7 @@ func (ex *Explorer) Assume(cond *Term) {
 		panic(pathAbort{"infeasible", "assume(false)"})
 	}
 	if ex.eval(cond) != 1 {
-		res, m := ex.solver.Check(ex.pcTerms(len(ex.pc)), []*Term{cond}, true)
+		res, m := ex.checkModel(ex.pcTerms(len(ex.pc)), []*Term{cond})
 		switch res {
 		case "unsat":
 			panic(pathAbort{"infeasible", "assume"})
@@ -197,14 +214,12 @@ func (ex *Explorer) Assert(cond *Term, id, msg string) {
 	ex.assertPaths[id]++
 	if cond.IsTrue() {
 		ex.AssertsTrivial++
+		ex.dropOnce()
 		return
 	}
 	if ex.pos < len(ex.pc) {
 		// replaying the prefix: this assertion was checked when first reached
-		if cond.IsFalse() {
-			panic(pathAbort{"done", "assertion false"})
-		}
-		ex.pos++
+		ex.dropOnce()
 		return
 	}
 	ex.Asserts++
@@ -233,7 +248,7 @@ func (ex *Explorer) Assert(cond *Term, id, msg string) {
 				return "unsat", nil
 			}
 		}
-		return ex.solver.Check(pcT, all, true)
+		return ex.checkModel(pcT, all)
 	}
 	res, m := check(exclude)
 	switch res {
@@ -262,25 +277,79 @@ func (ex *Explorer) Assert(cond *Term, id, msg string) {
 			ex.Unknown++
 		}
 	}
-	// continue under the asserted condition (if it can hold at all)
-	if cond.IsFalse() {
-		panic(pathAbort{"done", "assertion false"})
-	}
-	if ex.eval(cond) != 1 {
-		r3, m3 := ex.solver.Check(pcT, []*Term{cond}, true)
-		if r3 != "sat" {
-			if r3 != "unsat" {
-				ex.Unknown++
-			}
-			// still consume a pc slot for determinism on replay
-			ex.pc = append(ex.pc, pcEntry{term: cond, kind: 0})
-			ex.pos++
-			panic(pathAbort{"done", "assertion cannot hold"})
+	ex.dropOnce()
+	// Like a native test, execution continues after a failed assertion and
+	// the path condition is left alone.
+}
+
+func (ex *Explorer) dropOnce() {
+	k := ex.knowns[:0]
+	for _, c := range ex.knowns {
+		if !c.once {
+			k = append(k, c)
 		}
-		ex.setModel(m3)
 	}
-	ex.pc = append(ex.pc, pcEntry{term: cond, kind: 0})
-	ex.pos++
+	ex.knowns = k
+}
+
+// checkModel is solver.Check plus a consistency check: the evaluator must
+// agree with the solver that the returned model satisfies every asserted
+// term (validates evaluator, simplifier and printer against the solver).
+func (ex *Explorer) checkModel(pc []*Term, extra []*Term) (string, map[*Term]uint64) {
+	res, m := ex.solver.Check(pc, extra, true)
+	if res == "sat" {
+		saved := ex.model
+		ex.setModel(m)
+		for _, t := range pc {
+			if ex.eval(t) != 1 {
+				ex.modelMismatch(t)
+			}
+		}
+		for _, t := range extra {
+			if ex.eval(t) != 1 {
+				ex.modelMismatch(t)
+			}
+		}
+		ex.setModel(saved)
+	}
+	return res, m
+}
+
+func (ex *Explorer) modelMismatch(t *Term) {
+	ex.Mismatch++
+	if os.Getenv("GOSYM_SMTLOG") != "" && ex.Mismatch < 3 {
+		fmt.Fprintf(os.Stderr, "MISMATCH at solver seq %d term %s\n", ex.solver.seq, smtName(t))
+		var walk func(x *Term, d int)
+		walk = func(x *Term, d int) {
+			if x == nil || d > 60 {
+				return
+			}
+			fmt.Fprintf(os.Stderr, "%*s%s = %x   [%s] range[%x,%x]\n", d, "", smtName(x), TS.Eval(x), func() string {
+				if x.op == OpConst || x.op == OpVar {
+					return ""
+				}
+				return smtBody(x)
+			}(), x.lo, x.hi)
+			if x.op == OpIte {
+				walk(x.a, d+1)
+				if TS.Eval(x.a) == 1 {
+					walk(x.b, d+1)
+				} else {
+					walk(x.c, d+1)
+				}
+				return
+			}
+			if x.op == OpConst || x.op == OpVar {
+				return
+			}
+			walk(x.a, d+1)
+			walk(x.b, d+1)
+		}
+		walk(t, 0)
+	}
+	if len(ex.Samples) < 8 {
+		ex.Samples = append(ex.Samples, "evaluator disagrees with solver model on: "+Describe(t, 400))
+	}
 }
 
 // Fail records an unconditional failure on this path (e.g. a Go panic).
@@ -288,59 +357,191 @@ func (ex *Explorer) Fail(id, msg string) {
 	ex.Assert(False, id, msg)
 }
 
+// altTerm is the condition under which node e's untried alternative is taken.
+func altTerm(e *pcEntry) *Term {
+	switch e.kind {
+	case 1:
+		if e.taken {
+			return Not(e.cond)
+		}
+		return e.cond
+	case 2:
+		t := Ne(e.subj, Const(e.subj.sort, e.val))
+		for _, v := range e.tried {
+			t = And(t, Ne(e.subj, Const(e.subj.sort, v)))
+		}
+		return t
+	}
+	return False
+}
+
+func (e *pcEntry) hasAlt() bool {
+	return (e.kind == 1 && e.flipOK) || (e.kind == 2 && !e.noAlt)
+}
+
 // next prepares the next path: returns false when exploration is complete.
+// Instead of testing each untried alternative with its own query, one query
+// asks whether ANY alternative below the current path is feasible
+// (∨_k prefix_k ∧ alt_k, nested so it stays linear); unsat retires them all.
 func (ex *Explorer) next() bool {
-	for len(ex.pc) > 0 {
-		i := len(ex.pc) - 1
-		e := &ex.pc[i]
-		switch e.kind {
-		case 1:
-			if e.flipOK {
-				e.flipOK = false
-				e.taken = !e.taken
-				if e.taken {
-					e.term = e.cond
-				} else {
-					e.term = Not(e.cond)
-				}
-				res, m := ex.solver.Check(ex.pcTerms(len(ex.pc)), nil, true)
-				if res == "sat" {
-					ex.setModel(m)
-					return true
-				}
-				if res != "unsat" {
-					ex.Unknown++
-				}
-			}
-		case 2:
-			if !e.noAlt {
-				e.tried = append(e.tried, e.val)
-				if len(e.tried) >= ex.maxChoices {
+	for {
+		// drop exhausted tail
+		for len(ex.pc) > 0 && !ex.pc[len(ex.pc)-1].hasAlt() {
+			ex.pc = ex.pc[:len(ex.pc)-1]
+		}
+		if len(ex.pc) == 0 {
+			return false
+		}
+		var cand []int
+		for k := range ex.pc {
+			if ex.pc[k].hasAlt() {
+				if ex.pc[k].kind == 2 && len(ex.pc[k].tried)+1 >= ex.maxChoices {
 					ex.UnwindFail++
-					ex.Samples = append(ex.Samples, fmt.Sprintf("choice over %s exceeded %d values", Describe(e.subj, 80), ex.maxChoices))
-					e.noAlt = true
-				} else {
-					var extra []*Term
-					for _, v := range e.tried {
-						extra = append(extra, Ne(e.subj, Const(e.subj.sort, v)))
-					}
-					res, m := ex.solver.Check(ex.pcTerms(i), extra, true)
-					if res == "sat" {
-						ex.setModel(m)
-						e.val = TS.Eval(e.subj)
-						e.term = Eq(e.subj, Const(e.subj.sort, e.val))
-						return true
-					}
-					if res != "unsat" {
-						ex.Unknown++
-					}
-					e.noAlt = true
+					ex.Samples = append(ex.Samples, fmt.Sprintf("choice over %s exceeded %d values", Describe(ex.pc[k].subj, 80), ex.maxChoices))
+					ex.pc[k].noAlt = true
+					continue
 				}
+				cand = append(cand, k)
 			}
 		}
-		ex.pc = ex.pc[:i]
+		if len(cand) == 0 {
+			continue
+		}
+		// only the deepest group: shallower nodes are tested when reached
+		if len(cand) > ex.groupSize {
+			cand = cand[len(cand)-ex.groupSize:]
+		}
+		best := -1
+		var bestModel map[*Term]uint64
+		for len(cand) > 0 {
+			start := cand[0]
+			inCand := map[int]bool{}
+			for _, k := range cand {
+				inCand[k] = true
+			}
+			// nested disjunction, built as text over defined term names
+			ex.solver.MaybeRestart()
+			alts := map[int]*Term{}
+			for _, k := range cand {
+				alts[k] = altTerm(&ex.pc[k])
+				ex.solver.define(alts[k])
+			}
+			for k := start; k < len(ex.pc); k++ {
+				ex.solver.define(ex.pc[k].term)
+			}
+			acc := ""
+			for k := len(ex.pc) - 1; k >= start; k-- {
+				pcn := smtName(ex.pc[k].term)
+				if inCand[k] {
+					an := smtName(alts[k])
+					if acc == "" {
+						acc = an
+					} else {
+						acc = "(or " + an + " (and " + pcn + " " + acc + "))"
+					}
+				} else if acc != "" {
+					acc = "(and " + pcn + " " + acc + ")"
+				}
+			}
+			var rawTerms []*Term
+			for _, k := range cand {
+				rawTerms = append(rawTerms, alts[k])
+			}
+			for k := start; k < len(ex.pc); k++ {
+				rawTerms = append(rawTerms, ex.pc[k].term)
+			}
+			res, m := ex.solver.CheckRaw(ex.pcTerms(start), acc, rawTerms, true)
+			if res == "unsat" {
+				for _, k := range cand {
+					e := &ex.pc[k]
+					if e.kind == 1 {
+						e.flipOK = false
+					} else {
+						e.noAlt = true
+					}
+				}
+				break
+			}
+			if res != "sat" {
+				// cannot decide this group: fall back to one query per node
+				ex.Unknown++
+				for _, k := range cand {
+					e := &ex.pc[k]
+					if e.kind == 1 {
+						e.flipOK = false
+					} else {
+						e.noAlt = true
+					}
+				}
+				break
+			}
+			// deepest node whose alternative the model takes
+			saved := ex.model
+			ex.setModel(m)
+			for _, t := range ex.pcTerms(start) {
+				if ex.eval(t) != 1 {
+					ex.modelMismatch(t)
+				}
+			}
+			prefixOK := true
+			sel := -1
+			for k := start; k < len(ex.pc); k++ {
+				if inCand[k] && prefixOK && ex.eval(alts[k]) == 1 {
+					sel = k
+				}
+				if ex.eval(ex.pc[k].term) != 1 {
+					prefixOK = false
+					if sel >= 0 {
+						break
+					}
+				}
+			}
+			ex.setModel(saved)
+			if sel < 0 {
+				// model does not witness any alternative (should not happen):
+				// retire the group as undecided so exploration terminates
+				ex.Unknown++
+				ex.Samples = append(ex.Samples, "solver model does not witness any alternative of a sat group query")
+				for _, k := range cand {
+					e := &ex.pc[k]
+					if e.kind == 1 {
+						e.flipOK = false
+					} else {
+						e.noAlt = true
+					}
+				}
+				break
+			}
+			best, bestModel = sel, m
+			var deeper []int
+			for _, k := range cand {
+				if k > sel {
+					deeper = append(deeper, k)
+				}
+			}
+			cand = deeper
+		}
+		if best < 0 {
+			continue
+		}
+		e := &ex.pc[best]
+		ex.setModel(bestModel)
+		if e.kind == 1 {
+			e.flipOK = false
+			e.taken = !e.taken
+			if e.taken {
+				e.term = e.cond
+			} else {
+				e.term = Not(e.cond)
+			}
+		} else {
+			e.tried = append(e.tried, e.val)
+			e.val = TS.Eval(e.subj)
+			e.term = Eq(e.subj, Const(e.subj.sort, e.val))
+		}
+		ex.pc = ex.pc[:best+1]
+		return true
 	}
-	return false
 }
 
 func (ex *Explorer) beginPath() {
@@ -349,4 +550,15 @@ func (ex *Explorer) beginPath() {
 	ex.nondets = ex.nondets[:0]
 	ex.knowns = ex.knowns[:0]
 	ex.Paths++
+}
+
+func envInt(name string, def int) int {
+	if v := os.Getenv(name); v != "" {
+		n := 0
+		fmt.Sscanf(v, "%d", &n)
+		if n > 0 {
+			return n
+		}
+	}
+	return def
 }
